@@ -1,6 +1,7 @@
 use crate::common::Ctx;
 use serde_json::Value;
 
+pub mod c09;
 pub mod c14;
 pub mod c15;
 pub mod c16;
@@ -14,6 +15,7 @@ type ReplayFn = fn(&Ctx, &Value) -> Result<(bool, String), String>;
 
 fn table(prop: &str) -> Option<(RunFn, ReplayFn)> {
     Some(match prop {
+        "C09" => (c09::run, c09::replay),
         "C14" => (c14::run, c14::replay),
         "C15" => (c15::run, c15::replay),
         "C16" => (c16::run, c16::replay),
@@ -86,6 +88,7 @@ pub fn replay(ctx: &Ctx, path: &str) -> i32 {
 pub fn child_main(args: &[String]) -> i32 {
     match args.first().map(|s| s.as_str()) {
         Some("c18") => c18::child(&args[1..]),
+        Some("c09") => c09::child(&args[1..]),
         _ => {
             eprintln!("ENGINE-ERROR unknown child {:?}", args);
             2
